@@ -45,6 +45,16 @@ func genC09(t *rapid.T) c09Case {
 				m["required"] = false
 			}
 		}
+		if eh, ok := s["extra_hosts"].(map[string]any); ok && rapid.Bool().Draw(t, "multiip") {
+			// several addresses for one host, not in lexical order
+			for _, h := range sortedKeys(eh) {
+				eh[h] = []any{"9.9.9.9", "10.0.0.1", "::1"}
+				break
+			}
+		}
+		if b, ok := s["build"].(map[string]any); ok && rapid.IntRange(0, 3).Draw(t, "sshnull") == 0 {
+			b["ssh"] = map[string]any{"default": nil, "mykey": nil}
+		}
 		if rapid.IntRange(0, 3).Draw(t, "nestedext") == 0 {
 			s["x-service-ext"] = map[string]any{"k": []any{1, "two"}}
 		}
